@@ -28,7 +28,11 @@ TIERS = {
               dict(roots="arrayunion", K=3, KV=0, KU=0, shards=6),
               # every value within one change of the MAXIMAL instance (all properties set, budget 2)
               dict(roots="all", K=1, KV=1, KU=1, shards=10, frommax=True),
-              dict(roots="alias", K=3, KV=0, KU=4, shards=2)],
+              dict(roots="alias", K=3, KV=0, KU=4, shards=2),
+              # the union holders once more in a process with another hash seed (set / dict iteration orders differ)
+              dict(roots="unionholder", K=1, KV=0, KU=0, shards=4, cfg="default@1"),
+              # a pristine converter next to a converter the application made lenient, which sees every input first
+              dict(roots="all", K=0, KV=1, KU=0, shards=6, cfg="after_lenient")],
     "thorough": [dict(roots="all", K=2, KV=2, KU=3, shards=32),
                  dict(roots="response", K=3, KV=0, KU=3, shards=24),
                  dict(roots="alias", K=4, KV=0, KU=4, shards=4),
@@ -37,6 +41,10 @@ TIERS = {
                  # the same universe through differently configured converters (C19's configurations, judged clause by clause)
                  dict(roots="all", K=1, KV=1, KU=2, shards=16, cfg="nodetail"),
                  dict(roots="all", K=1, KV=1, KU=2, shards=16, cfg="second"),
+                 dict(roots="all", K=1, KV=1, KU=2, shards=16, cfg="default@1"),
+                 dict(roots="all", K=1, KV=1, KU=2, shards=16, cfg="after_lenient"),
+                 dict(roots="unionholder", K=2, KV=0, KU=0, shards=16, cfg="default@2"),
+                 dict(roots="unionholder", K=2, KV=0, KU=0, shards=16, cfg="default@3"),
                  dict(roots="all", K=8, KV=0, KU=0, shards=16, simulate=dict(num=40, depth=8))],
 }
 
@@ -70,7 +78,7 @@ def one_shard(args):
     t0 = time.time()
     states = os.path.join(work, "states-%d.txt" % shard)
     trace = os.path.join(work, "trace-%d.json" % shard)
-    env = {"LSP_MODEL": model}
+    env = {"LSP_MODEL": model, "ALIAS_TABLE": os.path.join(os.path.dirname(work), "aliases.json")}
     extra = ()
     if sim:
         # random walks of the value graph (TLC -simulate): long refinement chains beyond the BFS depth;
@@ -91,7 +99,9 @@ def one_shard(args):
         sg, sd = common.tlc_stats(gen_text)
     t1 = time.time()
     denv = pkg_env(pkg_path)
-    denv["VERIF_CONV_CFG"] = conv_cfg
+    denv["VERIF_CONV_CFG"], _, hs = conv_cfg.partition("@")       # "<configuration>[@<PYTHONHASHSEED>]"
+    if hs:
+        denv["PYTHONHASHSEED"] = hs
     p = subprocess.run([common.PY, "-m", "harness.codec_driver", states, trace, model], cwd=common.VERIF,
                        env=denv, stdout=subprocess.PIPE, stderr=subprocess.PIPE)
     if p.returncode != 0:
@@ -127,6 +137,25 @@ def one_shard(args):
             "fails": fails, "samples": samples, "t": [round(t1 - t0, 1), round(t2 - t1, 1), round(time.time() - t2, 1)]}
 
 
+def alias_table(model, path):
+    """Spelling variants of every property name (snake_case, lower case, keyword-escaped) as a table
+    for Codec.tla's AddNearMissKey action."""
+    import keyword
+    import re
+    from .codec_driver import norm_table
+    out = {}
+    for name in norm_table(model):
+        snake = re.sub(r"([a-z0-9])([A-Z])", r"\1_\2", re.sub(r"(.)([A-Z][a-z]+)", r"\1_\2", name)).lower()
+        cands = []
+        for c in (snake, name.lower(), (name + "_") if keyword.iskeyword(name) else name):
+            if c != name and c not in cands:
+                cands.append(c)
+        if cands:
+            out[name] = cands
+    json.dump(out, open(path, "w"))
+    return path
+
+
 def dep_files(pkg_path, model):
     files = common.tree_files(pkg_path, (".py",)) + [model]
     files += common.tree_files(common.SPEC, (".tla",)) + common.tree_files(os.path.join(common.VERIF, "harness"), (".py",))
@@ -150,6 +179,7 @@ def run(tier, model=None, pkg_path=None, use_cache=True, passes=None):
     t0 = time.time()
     try:
         jobs = []
+        alias_table(model, os.path.join(work, "aliases.json"))
         for pi, ps in enumerate(passes):
             d = os.path.join(work, "p%d" % pi)
             os.makedirs(d)
